@@ -19,12 +19,14 @@ META = {
         "reject exactly the values outside i16; (pos) handle_user_pos returns an existing id, registers only under "
         "Allow, errs otherwise; (no-panic-load) no explicit panic / error-discarding unwrap in plugin set-up code; "
         "(unchecked-consumer) every constructor call of a lattice node takes its ids from a sanitized plugin field, "
-        "from dictionary word parameters, or from the constant 0. NOT decided: behaviour of DSO plugins; that "
+        "from dictionary word parameters, or from the constant 0; (axis) the dimension an id is validated against is the one that bounds it where the "
+        "matrix is indexed — layout derived from ConnectionMatrix::index, roles from the lattice's lookup sites (finding F15: OOV plugin ids are "
+        "validated against the homonymous, i.e. the other, dimension; harmless for square matrices). NOT decided: behaviour of DSO plugins; that "
         "serde rejects malformed JSON; that the matrix is non-empty."),
-    "decided": ["sanitized", "bounds", "pos", "no-panic-load", "unchecked-consumer"],
+    "decided": ["sanitized", "bounds", "pos", "no-panic-load", "unchecked-consumer", "pair-axis", "axis"],
     "not_decided": ["third-party (DSO) plugins", "serde / regex crate behaviour"],
     "trusted": ["str::parse::<i16> rejects out-of-range text", "serde_json rejects values outside the declared integer type"],
-    "assumptions": ["square or at least consistently-sized matrices are not assumed: each axis is compared with its own dimension accessor as the repository does"],
+    "assumptions": ["square matrices are NOT assumed (C20.axis reports where the repository's validators rely on it)"],
 }
 
 NUM = {"left": "ConnectionMatrix::num_left", "right": "ConnectionMatrix::num_right"}
@@ -277,6 +279,95 @@ def _sanitized_write(db, wf, v, raw, adt, name, role, elem):
             if {o[:3] for o in vo} & xo:
                 return True, "%s applied to the same source in the writer" % CHECK[role]
     return False, "no %s / no rejecting comparison with the %s dimension on this value in the writer" % (CHECK[role], role)
+
+
+def matrix_layout(db):
+    """{argument position (receiver = 0): dimension field that bounds it} derived from ConnectionMatrix::index, whose result is
+    `P_b * self.<stride> + P_a`: P_a ranges over the stride dimension, P_b over the other one"""
+    from ..db import deref_all
+    from ..origins import index as oindex
+    f = db.one("index", "ConnectionMatrix")
+    bd = oindex(db).bindings(f)
+
+    def param_pos(e):
+        e = deref_all(e)
+        if isinstance(e, dict) and e.get("k") == "Path" and e.get("res") == "local":
+            b = bd.get(e["lid"])
+            if b and b[0] == "param":
+                return b[1]
+        return None
+    for n, _ in walk(f.hir):
+        if n.get("k") == "Binary" and n.get("op") == "Add":
+            for mul, add in ((n["l"], n["r"]), (n["r"], n["l"])):
+                m = deref_all(mul)
+                if isinstance(m, dict) and m.get("k") == "Binary" and m.get("op") == "Mul":
+                    for fld, other in ((m["l"], m["r"]), (m["r"], m["l"])):
+                        fl = deref_all(fld)
+                        if isinstance(fl, dict) and fl.get("k") == "Field" and fl.get("name") in ("num_left", "num_right"):
+                            pa, pb = param_pos(add), param_pos(other)
+                            if pa is not None and pb is not None:
+                                stride = fl["name"]
+                                return {pa: stride, pb: "num_right" if stride == "num_left" else "num_left"}, f
+    raise AnchorMissing("ConnectionMatrix::index: `b * stride + a` layout")
+
+
+def node_id_axes(db):
+    """{'left' | 'right' (which id of a lattice node): set of dimensions that bound it at the matrix lookups of the lattice}"""
+    from .C02 import _matrix_calls
+    layout, _ = matrix_layout(db)
+    out = {}
+    sites = []
+    for g, n in _matrix_calls(db):
+        if g.pkg != "sudachi":
+            continue
+        a = call_args(n)
+        if len(a) < 3:
+            continue
+        for pos in (1, 2):
+            acc = {short_path(o[1]).split("::")[-1] for o in origins(db, g, a[pos], depth=0) if o[0] == "call"} & {"left_id", "right_id"}
+            if len(acc) == 1 and pos in layout:
+                out.setdefault(acc.pop()[:-3], set()).add(layout[pos])
+                sites.append((g, n))
+    return out, sites
+
+
+@rule("C20.axis", "a connection id is validated against the matrix dimension that bounds it where it is USED: ConnectionMatrix::index(left, "
+                  "right) = right*num_left + left bounds its first argument by num_left and its second by num_right; the lattice looks up "
+                  "cost(left node's RIGHT id, right node's LEFT id), so a node's left id must be < num_right and its right id < num_left; "
+                  "Grammar::set_connect_cost(left, right) takes matrix coordinates directly")
+def axis(db, ctx):
+    layout, ixf = matrix_layout(db)
+    ctx.ob("ConnectionMatrix::index|layout", layout == {1: "num_left", 2: "num_right"},
+           "ConnectionMatrix::index bounds argument 1 by %s and argument 2 by %s" % (layout.get(1), layout.get(2)), fn=ixf, nontrivial=False)
+    nax, sites = node_id_axes(db)
+    ctx.ob("lattice|node-id-axes", nax == {"left": {"num_right"}, "right": {"num_left"}},
+           "at the lattice's matrix lookups a node's left id is bounded by %s and its right id by %s (%d lookup sites)" % (
+               sorted(nax.get("left", [])), sorted(nax.get("right", [])), len(sites)), nontrivial=False)
+    need = {("Node::new", "left"): nax.get("left", set()), ("Node::new", "right"): nax.get("right", set()),
+            ("set_connect_cost", "left"): {layout.get(1)}, ("set_connect_cost", "right"): {layout.get(2)}}
+    seen = set()
+    for f, n, sink, roles in _sink_calls(db):
+        if "::plugin::" not in f.key:
+            continue
+        for role, e in roles:
+            if role not in NUM:
+                continue
+            og, fields, consts, calls = _classify(db, f, e)
+            for (adt, name, elem) in sorted(x for x in fields if _is_plugin_adt(x[0])):
+                key = (adt, name, role, sink)
+                if key in seen:
+                    continue
+                seen.add(key)
+                validated = NUM[role].split("::")[-1]          # what C20.sanitized requires for this role: check_<role>_id / num_<role>
+                required = need.get((sink, role), set())
+                ok = required == {validated}
+                ctx.ob("%s.%s|%s|%s" % (short_path(adt), name, role, sink), ok,
+                       "%s.%s is used as the %s id of %s, which is bounded by %s where the matrix is indexed; it is validated against %s()%s" % (
+                           short_path(adt), name, role, sink, sorted(required), validated,
+                           "" if ok else " — the OTHER axis: with a non-square matrix an id in [%s, %s) passes the check and indexes outside the matrix"
+                           % tuple(sorted(required | {validated}))), fn=f, site=n.get("sp"),
+                       sig="required=%s;validated=%s" % (sorted(required), validated))
+    ctx.floor(6)
 
 
 def tuple_pos(db, f, expr, depth=2):
